@@ -2,6 +2,8 @@ use ropey::Rope;
 
 use syntax::parser::TextSize;
 
+/// Converts between byte offsets into a text (`TextSize`) and the line / UTF-16 column pairs
+/// of the Language Server Protocol.
 #[derive(Debug, Eq, PartialEq)]
 pub struct LineIndex {
     rope: Rope,
@@ -15,11 +17,30 @@ impl LineIndex {
     }
 
     pub fn pos_to_line(&self, pos: TextSize) -> usize {
-        self.rope.char_to_line(pos.into())
+        self.rope.byte_to_line(pos.into())
     }
 
     pub fn line_to_pos(&self, line: usize) -> TextSize {
-        let pos = self.rope.line_to_char(line);
+        let pos = self.rope.line_to_byte(line);
         TextSize::try_from(pos).expect("line index out of bounds")
+    }
+
+    /// Number of UTF-16 code units between the start of the line containing `pos` and `pos`.
+    pub fn pos_to_utf16_col(&self, pos: TextSize) -> u32 {
+        let line_first = self.rope.line_to_char(self.pos_to_line(pos));
+        let pos_char = self.rope.byte_to_char(pos.into());
+        let col = self.rope.char_to_utf16_cu(pos_char) - self.rope.char_to_utf16_cu(line_first);
+        u32::try_from(col).expect("column out of bounds")
+    }
+
+    /// Byte offset of the UTF-16 column `col` in `line`.
+    pub fn utf16_col_to_pos(&self, line: usize, col: u32) -> TextSize {
+        let line_first = self.rope.line_to_char(line);
+        let col_cu = self.rope.char_to_utf16_cu(line_first) + col as usize;
+        let pos_char = self
+            .rope
+            .utf16_cu_to_char(col_cu.min(self.rope.len_utf16_cu()));
+        let pos = self.rope.char_to_byte(pos_char);
+        TextSize::try_from(pos).expect("position out of bounds")
     }
 }
